@@ -223,8 +223,8 @@ def run_kani_unit(unit, harness_names, root, jobs, timeout, tag):
     if os.path.exists(json_path):
         os.remove(json_path)
     extra = []
-    if unit.get('harness_timeout'):
-        extra += ['--harness-timeout', str(unit['harness_timeout'])]
+    # per-harness limit so that one intractable harness cannot take the whole unit down (reported as timeout = undecided)
+    extra += ['--harness-timeout', str(unit.get('harness_timeout', max(60, int(timeout * 0.8))))]
     if unit.get('default_unwind'):
         extra += ['--default-unwind', str(unit['default_unwind'])]
     cmd = kani_cmd(unit, harness_names, jobs, json_path, extra)
